@@ -123,6 +123,7 @@ func c04ParseBlock(fs *Facts, f *File, ty *File) {
 	}
 	decPos := dec[0].Pos()
 	crc, crcBefore, ulen, dlen, all := false, false, false, false, false
+	dlenSeen := false
 	var loop token.Pos
 	ast.Inspect(fd.Body, func(x ast.Node) bool {
 		if fr, ok := x.(*ast.ForStmt); ok && loop == token.NoPos {
@@ -139,8 +140,21 @@ func c04ParseBlock(fs *Facts, f *File, ty *File) {
 			crcBefore = is.Pos() < decPos
 		case c == "uint32(len(uncompressed))!=header.UncompressedSize" && bad && is.Pos() > decPos:
 			ulen = true
-		case bad && is.Pos() < decPos && strings.Contains(c, "32*len(compressedData)+64") && (strings.Contains(c, "DecodedLen") || strings.Contains(c, "dLen") || strings.Contains(c, "declared")):
-			dlen = true
+		case is.Pos() < decPos && strings.Contains(c, "len(compressedData)") && is.Init != nil && strings.Contains(f.Str(is.Init), "snappy.DecodedLen"):
+			// the WHOLE condition must be `<err> == nil && <dLen> > 32*len(compressedData)+64`, with <dLen>, <err>
+			// the results of snappy.DecodedLen(compressedData) in the if's init; anything else is not the modelled guard
+			dlenSeen = true
+			as, okA := is.Init.(*ast.AssignStmt)
+			be, okB := is.Cond.(*ast.BinaryExpr)
+			if okA && okB && bad && len(as.Lhs) == 2 && len(as.Rhs) == 1 && strings.ReplaceAll(f.Str(as.Rhs[0]), " ", "") == "snappy.DecodedLen(compressedData)" && be.Op == token.LAND {
+				lv, ev := f.Str(as.Lhs[0]), f.Str(as.Lhs[1])
+				l, okL := be.X.(*ast.BinaryExpr)
+				r, okR := be.Y.(*ast.BinaryExpr)
+				if okL && okR && l.Op == token.EQL && f.Str(l.X) == ev && f.Str(l.Y) == "nil" &&
+					r.Op == token.GTR && f.Str(r.X) == lv && strings.ReplaceAll(f.Str(r.Y), " ", "") == "32*len(compressedData)+64" {
+					dlen = true
+				}
+			}
 		case bad && loop != token.NoPos && is.Pos() > loop && (c == "offset!=len(uncompressed)" || c == "len(uncompressed)!=offset"):
 			all = true
 		}
@@ -149,7 +163,11 @@ func c04ParseBlock(fs *Facts, f *File, ty *File) {
 	fs.Tri("validatesCrc", TriOf(crc), where)
 	fs.Tri("crcBeforeDecompress", TriOf(crcBefore), where)
 	fs.Tri("validatesULen", TriOf(ulen), where)
-	fs.Tri("boundsDecodedLen", TriOf(dlen), where)
+	if dlenSeen && !dlen {
+		fs.Tri("boundsDecodedLen", Unknown, where) // a guard of another shape: not the one alloc_bounded is proved for
+	} else {
+		fs.Tri("boundsDecodedLen", TriOf(dlen), where)
+	}
 	fs.Tri("parseConsumesAll", TriOf(all), where)
 }
 
